@@ -137,10 +137,13 @@ class FileFaults(object):
         self._orig_isfile = None
         self._orig_ds = None
         self.swap_hook = None    # callable(basename, nth_open) used by swap_between_opens
+        self._created = []       # every netCDF4.Dataset opened through the seam (closed after each command)
 
     # -- plan -----------------------------------------------------------------
-    def arm_open_error(self, base, nth, err, mode="r"):
-        self.plan.append({"kind": "open_error", "file": base, "nth": nth, "errno": err, "mode": mode, "count": 0})
+    def arm_open_error(self, base, nth, err, mode="r", seam="open"):
+        # seam: "open" = builtins.open (text inputs, config files), "dataset" = netCDF4.Dataset
+        self.plan.append({"kind": "open_error", "file": base, "nth": nth, "errno": err, "mode": mode, "count": 0,
+                          "seam": seam})
 
     def arm_read_error(self, base, after_lines):
         self.plan.append({"kind": "read_error", "file": base, "after": after_lines})
@@ -195,7 +198,7 @@ class FileFaults(object):
                 for f in list(self.plan):
                     if f["file"] != base:
                         continue
-                    if f["kind"] == "open_error" and (("w" in mode) == ("w" in f.get("mode", "r"))):
+                    if f["kind"] == "open_error" and f.get("seam", "open") == "open" and (("w" in mode) == ("w" in f.get("mode", "r"))):
                         f["count"] += 1
                         if f["count"] == f["nth"]:
                             self.plan.remove(f)
@@ -221,13 +224,26 @@ class FileFaults(object):
             if tracked:
                 self._note_open(base)
                 for f in list(self.plan):
-                    if f["file"] == base and f["kind"] == "open_error" and "w" not in f.get("mode", "r"):
+                    if f["file"] == base and f["kind"] == "open_error" and f.get("seam") == "dataset":
                         f["count"] += 1
                         if f["count"] == f["nth"]:
                             self.plan.remove(f)
                             self._fire(f)
                             raise OSError(self.ERRNOS[f["errno"]], os.strerror(self.ERRNOS[f["errno"]]) + " (injected)", filename)
-        return self._orig_ds(filename, mode, *args, **kwargs)
+        ds = self._orig_ds(filename, mode, *args, **kwargs)
+        self._created.append(ds)
+        return ds
+
+    def close_datasets(self):
+        """verif never closes its NetCDF inputs; HDF5 would otherwise keep serving a stale handle
+        for a path whose bytes the simulator has since replaced."""
+        for ds in self._created:
+            try:
+                if ds.isopen():
+                    ds.close()
+            except Exception:
+                pass
+        self._created = []
 
 
 class _FailingReader(object):
